@@ -72,7 +72,7 @@ func (hw *hashWorld) checkRoot(ri *rootInfo, status string) *mismatch {
 	for _, t := range trieNames {
 		rd, err := hw.hdb.NodeReader(hw.trieID(t, ri.label))
 		if err != nil {
-			return &mismatch{key: "triedb:hash:reader-error", what: err.Error()}
+			return &mismatch{key: "triedb:hashdb:reader-error", what: err.Error()}
 		}
 		o := hw.owner(t)
 		for p, want := range ri.nodes[t] {
@@ -82,14 +82,14 @@ func (hw *hashWorld) checkRoot(ri *rootInfo, status string) *mismatch {
 			hw.counts["node-reads"]++
 			if err != nil || blob == nil {
 				if strict {
-					return &mismatch{key: "triedb:hash:node-lost:" + t,
+					return &mismatch{key: "triedb:hashdb:node-lost:" + t,
 						what:     fmt.Sprintf("state %d (status %s), trie %s, path %s: the node of the canonical trie is not found by (path, hash): %v", ri.id, status, t, bitsOf(&pp), err),
 						expected: fmt.Sprintf("%x", want.blob), observed: fmt.Sprint(err)}
 				}
 				continue
 			}
 			if !bytes.Equal(blob, want.blob) {
-				return &mismatch{key: "triedb:hash:node-wrong:" + t,
+				return &mismatch{key: "triedb:hashdb:node-wrong:" + t,
 					what:     fmt.Sprintf("state %d, trie %s, path %s: the blob stored under the node's hash is not the node", ri.id, t, bitsOf(&pp)),
 					expected: fmt.Sprintf("%x", want.blob), observed: fmt.Sprintf("%x", blob)}
 			}
@@ -100,7 +100,7 @@ func (hw *hashWorld) checkRoot(ri *rootInfo, status string) *mismatch {
 		tr, err := open(t, ri)
 		if err != nil {
 			if strict {
-				return &mismatch{key: "triedb:hash:trie-open:" + t, what: fmt.Sprintf("opening trie %s of state %d by its root hash: %v", t, ri.id, err)}
+				return &mismatch{key: "triedb:hashdb:trie-open:" + t, what: fmt.Sprintf("opening trie %s of state %d by its root hash: %v", t, ri.id, err)}
 			}
 			continue
 		}
@@ -108,7 +108,7 @@ func (hw *hashWorld) checkRoot(ri *rootInfo, status string) *mismatch {
 			got, _ := tr.Hash()
 			want := ri.roots[t]
 			if !got.Equal(&want) {
-				return &mismatch{key: "triedb:hash:trie-root:" + t, what: fmt.Sprintf("root hash of trie %s of state %d differs from the committed / refimpl root", t, ri.id),
+				return &mismatch{key: "triedb:hashdb:trie-root:" + t, what: fmt.Sprintf("root hash of trie %s of state %d differs from the committed / refimpl root", t, ri.id),
 					expected: want.String(), observed: got.String()}
 			}
 		}
@@ -118,12 +118,12 @@ func (hw *hashWorld) checkRoot(ri *rootInfo, status string) *mismatch {
 			hw.counts["gets"]++
 			if err != nil {
 				if strict {
-					return &mismatch{key: "triedb:hash:get-error:" + t, what: fmt.Sprintf("Get(%v) on trie %s of state %d: %v", kb, t, ri.id, err)}
+					return &mismatch{key: "triedb:hashdb:get-error:" + t, what: fmt.Sprintf("Get(%v) on trie %s of state %d: %v", kb, t, ri.id, err)}
 				}
 				continue
 			}
 			if !got.Equal(want) && (strict || !got.IsZero()) {
-				return &mismatch{key: "triedb:hash:get-wrong-value:" + t,
+				return &mismatch{key: "triedb:hashdb:get-wrong-value:" + t,
 					what:     fmt.Sprintf("Get(%v) on trie %s of state %d (status %s) returns a value of another state", kb, t, ri.id, status),
 					expected: want.String(), observed: got.String()}
 			}
@@ -133,7 +133,7 @@ func (hw *hashWorld) checkRoot(ri *rootInfo, status string) *mismatch {
 		cl, ct := ri.roots["cl"], ri.roots["ct"]
 		if !cl.IsZero() && !ct.IsZero() {
 			if _, _, err := hw.hdb.GetTrieRootNodes((*felt.Hash)(&cl), (*felt.Hash)(&ct)); err != nil {
-				return &mismatch{key: "triedb:hash:root-nodes-missing-on-disk", what: fmt.Sprintf("state %d is durable according to HashDB.tla, GetTrieRootNodes fails: %v", ri.id, err)}
+				return &mismatch{key: "triedb:hashdb:root-nodes-missing-on-disk", what: fmt.Sprintf("state %d is durable according to HashDB.tla, GetTrieRootNodes fails: %v", ri.id, err)}
 			}
 			hw.counts["root-node-probes"]++
 		}
@@ -149,12 +149,14 @@ func replayHash(in *hashInput, beh []step, v *variant) (out *outcome, nsteps int
 		return &outcome{key: "triedb-harness:open-store", what: err.Error()}, 0, counts
 	}
 	hw := &hashWorld{world: newWorld(v, in.H), kit: kit, store: store, counts: counts}
+	hw.couple = false
+	hw.roots[0].label = felt.StateRootHash(felt.One)
 	defer func() { hw.close() }()
 	hw.openDB()
 	last := "none"
 	defer func() {
 		if p := recover(); p != nil {
-			out = &outcome{key: "triedb:hash:panic:after-" + last, what: fmt.Sprintf("panic in the real hashdb: %v", p), step: nsteps}
+			out = &outcome{key: "triedb:hashdb:panic:after-" + last, what: fmt.Sprintf("panic in the real hashdb: %v", p), step: nsteps}
 		}
 	}()
 	fail := func(si int, m *mismatch) (*outcome, int, map[string]int) {
@@ -180,23 +182,23 @@ func replayHash(in *hashInput, beh []step, v *variant) (out *outcome, nsteps int
 			}
 			cm, err := hw.applyChanges(hw.hashOpener(hw.hdb), parent, s.A.Ch)
 			if err != nil {
-				return fail(si, &mismatch{key: "triedb:hash:update-tries", what: "tries opened by root hash on a readable state fail: " + err.Error()})
+				return fail(si, &mismatch{key: "triedb:hashdb:update-tries", what: "tries opened by root hash on a readable state fail: " + err.Error()})
 			}
 			for _, t := range trieNames {
 				if want, got := ri.roots[t], cm.roots[t]; !want.Equal(&got) {
-					return fail(si, &mismatch{key: "triedb:hash:committed-root:" + t,
+					return fail(si, &mismatch{key: "triedb:hashdb:committed-root:" + t,
 						what:     fmt.Sprintf("trie %s opened on state %d through hashdb commits to a different root than on the raw scheme / refimpl", t, parent.id),
 						expected: want.String(), observed: got.String()})
 				}
 			}
 			pl := parent.label
 			if err := hw.hdb.Update(&cm.label, &pl, uint64(si+1), cm.classSet, cm.contracts, nil); err != nil {
-				return fail(si, &mismatch{key: "triedb:hash:update-error", what: err.Error()})
+				return fail(si, &mismatch{key: "triedb:hashdb:update-error", what: err.Error()})
 			}
 			hw.roots[s.A.Root] = ri
 		case "Commit":
 			if err := hw.hdb.Commit(nil); err != nil {
-				return fail(si, &mismatch{key: "triedb:hash:commit-error", what: err.Error()})
+				return fail(si, &mismatch{key: "triedb:hashdb:commit-error", what: err.Error()})
 			}
 		case "Reopen":
 			if si%2 == 0 {
@@ -225,7 +227,7 @@ func replayHash(in *hashInput, beh []step, v *variant) (out *outcome, nsteps int
 		}
 		for _, r := range hw.retained {
 			if !bytes.Equal(r.got, r.copy) {
-				return fail(si, &mismatch{key: "triedb:hash:retained-blob-changed", what: "a node blob handed out by a reader changed afterwards: " + r.where,
+				return fail(si, &mismatch{key: "triedb:hashdb:retained-blob-changed", what: "a node blob handed out by a reader changed afterwards: " + r.where,
 					expected: fmt.Sprintf("%x", r.copy), observed: fmt.Sprintf("%x", r.got)})
 			}
 		}
